@@ -132,6 +132,20 @@ fn main() {
                     }
                 }
                 println!("{rootrel}: {n} diagnostics");
+                if let Ok(q) = std::env::var("VCHECK_GOTO") {
+                    // <path suffix>:<offset>
+                    if let Some((suffix, off)) = q.rsplit_once(':') {
+                        for (f, _) in a.diagnostics() {
+                            let path = w.fs.path_of(f).unwrap_or_default();
+                            if path.ends_with(suffix) {
+                                let off: usize = off.parse().unwrap_or(0);
+                                let d = a.goto_definition(ws::pos(f, off));
+                                println!("goto {path}:{off} -> {:?} {:?}", d.as_ref().map(|d| w.fs.path_of(d.file)), d.as_ref().map(|d| d.range));
+                                println!("hover -> {:?}", a.hover(ws::pos(f, off)).map(|h| h.signature));
+                            }
+                        }
+                    }
+                }
             }
             0
         }
